@@ -19,7 +19,7 @@ func init() {
 			"the in-flight slot (the bounded responses queue, capacity MaxOpenRequests-1) should be taken before the request is written (C14.slot — violated on the pinned tree, known finding F7); all connection reads/writes go through readFull/write, which set the deadline first (C14.deadline); sendAndReceive returns only after receiving from the promise (C14.await). " +
 			"Shared with C10: the response header length is checked before anything else is believed, so that the body buffer size computed from it cannot be negative (C10.cap). " +
 			"NOT covered: server behaviours, Close racing with in-flight calls, fairness between callers.",
-		Rules: []func(*Ctx){c14Lock, c14OneOutcome, c14Slot, c14Deadline, c14Await, c10Cap},
+		Rules: []func(*Ctx){c14Lock, c14OneOutcome, c14Slot, c14Deadline, c14Await, c14OpenOnce, c10Cap},
 	})
 }
 
@@ -267,5 +267,69 @@ func c14Await(c *Ctx) {
 	for _, e := range es {
 		esc, path := reg.From(Pt{e.To, 0}).Escape(recv)
 		c.Check(!esc, rule, fn, "await-promise", lastInstr(e.From), "with a promise, the call returns only after receiving its packet or error", "sendAndReceive can return without waiting for the promise: the response is left unread / the caller gets a zero value", path)
+	}
+}
+
+// C14.open-once: one connection (one conn, one responses queue, one receiver) per opened Broker.
+func c14OpenOnce(c *Ctx) {
+	p := c.P
+	rule := "C14.open-once"
+	c.Doc(rule, "Broker.opened goes from 0 to 1 only by atomic.CompareAndSwapInt32(&b.opened, 0, 1) (test and set in one step), every other write stores 0; in Broker.Open the dial goroutine — which replaces b.conn, b.responses and b.done and starts a responseReceiver — is started only where that CompareAndSwap succeeded.  Otherwise two concurrent Open calls both dial, and a call outstanding on the first connection reads its response from the second")
+	c.Floor(rule, 4)
+	opened := FieldAddrOf("Broker.opened")
+	nCAS := 0
+	isCAS := func(v ssa.Value) bool {
+		cl, ok := strip(v).(*ssa.Call)
+		if !ok || p.CalleeName(&cl.Call) != "sync/atomic.CompareAndSwapInt32" || len(cl.Call.Args) != 3 {
+			return false
+		}
+		return opened(cl.Call.Args[0]) && ConstInt(0)(cl.Call.Args[1]) && ConstInt(1)(cl.Call.Args[2])
+	}
+	for _, fn := range p.Fns {
+		if rootFn(fn).Pkg != p.Sarama {
+			continue
+		}
+		for _, b := range fn.Blocks {
+			for _, in := range b.Instrs {
+				switch x := in.(type) {
+				case *ssa.Store:
+					if opened(x.Addr) {
+						c.Fail(rule, fn, "plain-store", x, "Broker.opened is written with a plain store (it is read and written atomically elsewhere)", nil)
+					}
+				case *ssa.Call:
+					name := p.CalleeName(&x.Call)
+					if !strings.HasPrefix(name, "sync/atomic.") || len(x.Call.Args) == 0 || !opened(x.Call.Args[0]) {
+						continue
+					}
+					switch name {
+					case "sync/atomic.LoadInt32":
+					case "sync/atomic.CompareAndSwapInt32":
+						nCAS++
+						c.Check(isCAS(x), rule, fn, "cas-0-1", x, "opened: 0 → 1 by CompareAndSwap", "CompareAndSwap on Broker.opened is not 0 → 1", nil)
+					case "sync/atomic.StoreInt32":
+						c.Check(ConstInt(0)(x.Call.Args[1]), rule, fn, "store-only-0", x, "opened is only ever stored 0 (closed / dial failed)",
+							"Broker.opened is set with a Store of a non-zero value: testing and setting the flag are two steps, so two concurrent Open calls can both find it 0 and both dial — the second dial replaces b.conn/b.responses under the first connection's receiver and outstanding calls get another call's bytes", nil)
+					default:
+						c.Fail(rule, fn, "other-atomic", x, name+" on Broker.opened: not a tabled transition", nil)
+					}
+				}
+			}
+		}
+	}
+	if nCAS == 0 {
+		c.Fail(rule, nil, "cas-0-1", nil, "no CompareAndSwap(&b.opened, 0, 1) found: nothing makes 'is it open? then mark it open' one step", nil)
+	}
+	fn := c.NeedFn(rule, "Broker.Open")
+	if fn == nil {
+		return
+	}
+	reg := WholeFn(fn)
+	gos := Info(fn).Find(func(it Item) bool { _, ok := it.In.(*ssa.Go); return ok })
+	if len(gos) == 0 {
+		c.Unresolved(rule, "the dial goroutine started by Broker.Open")
+	}
+	for _, g := range gos {
+		ok, path := reg.Guarded(g, Truth{isCAS, true})
+		c.Check(ok, rule, fn, "dial-only-after-cas", g.In, "the dial goroutine is started only where CompareAndSwap(&b.opened, 0, 1) succeeded", "Broker.Open can start its dial goroutine without having won CompareAndSwap(&b.opened, 0, 1): concurrent Open calls both dial", path)
 	}
 }
